@@ -80,6 +80,9 @@ Fixpoint model_mismatches (i : nat) (cs : list case) : list (nat * nat) :=
    class 8: an active delegation entry is negative
    class 10: a pending undelegation / pending reward withdrawal of a height already reached is not
              cleared (non-zero): matured but lost, or paid but left in place
+   class 11: a transaction changed reward balances otherwise than: a successful reward withdrawal /
+             reinvestment of amt debits the sender's reward balance by exactly amt, nothing else changes
+             (so what is withdrawn or reinvested never exceeds the accrued balance, which is >= 0)
    class 9: the rewards credited to the delegators in BeginBlock are not proportional to the active
             delegations at the beginning of the block: there is no total D >= 0 with
             accrual(a) = floor (D * active(a) / pool) for every delegator that has an active key and
@@ -150,7 +153,12 @@ Fixpoint monitor (n : nat) (k : N) (i : nat) (m : mon) (ops : list op) (res : li
                            | Begin accr => if accr_proportional n (m_prev m) accr then [] else [9%nat]
                            | _ => []
                            end)
-                   | _ => []
+                   | WithdrawRw a amt _ | Reinvest a amt _ =>
+                       if forallb (fun x => nth (N.to_nat x) (s_rew cur) 0 =?
+                                            nth (N.to_nat x) (s_rew (m_prev m)) 0 - (if r && (x =? a)%N then amt else 0))
+                                  (idxs n) then [] else [11%nat]
+                   | Delegate _ _ _ | Undelegate _ _ _ | Donate _ _ _ =>
+                       if zlist_eqb (s_rew cur) (s_rew (m_prev m)) then [] else [11%nat]
                    end) ++ snap_classes m' cur in
       map (fun cl => (i, cl)) here ++ monitor n k (S i) m' ops' res' snaps'
   | _, _, _ => []
